@@ -1,7 +1,1229 @@
-//! C12 — stub (not built yet).
+//! C12 — URIs: parsed form is faithful, equality/hash agree, path algebra is
+//! consistent.
+//!
+//! All oracles work on the *text* of the URIs with the harness' own splitter
+//! (`split_rsync` / `split_https`); the library accessors are only compared
+//! against that.
 
 use crate::engine::*;
+use bytes::Bytes;
+use proptest::prelude::*;
+use rpki::uri::{Https, Rsync, Scheme};
+use serde::{Deserialize, Serialize};
+use serde_json::json;
+use std::collections::BTreeSet;
+use std::hash::{Hash, Hasher};
+use std::str::FromStr;
+use std::sync::OnceLock;
+
+pub const RULE: &str = "parse: complete enumeration of all byte strings prefix||w, prefix in {rsync://, RSYNC://, https://, \
+hTTps://, rsync:/, ''}, w over the alphabet {a B / . : ~ SPACE} up to length 7 (quick) / 9 (thorough), offered to every \
+Rsync and Https constructor; oracle = harness splitter with a three-valued verdict (must-accept: documented structure, \
+documented-allowed characters, conventional host[:port] authority; must-reject: wrong scheme, forbidden/non-ASCII byte, \
+missing/empty authority or module, empty or dot segment; don't-care otherwise, e.g. '@' '!' or odd authorities), accepted => \
+text unchanged, accessors recompose, parent() result checked; non-trivial = string accepted by a parser (parent call on \
+it). pairs: complete enumeration of ordered pairs over D = {library-accepted rsync strings of the parse enumeration with \
+|w|<=5} + {rsync,RSYNC}://{a,A,b}/{a,A,b}/{all valid paths over a A / up to length 5 (thorough 6)}; oracle = reference \
+equality on text (scheme+authority case-insensitive, rest exact) for ==, symmetry, hash, == &str, relative_to/is_parent_of \
+laws incl. join-back and invariance under case variants of scheme+authority; non-trivial = pair with common \
+authority+module. triples: complete enumeration over a 304-element rsync and a 96-element https domain for transitivity of \
+== and parent-of and agreement of parent-of with ==; non-trivial = triple whose premise holds. join: complete enumeration \
+of (base, arg), 16 rsync + 14 https bases, arg over the alphabet up to length 6 (thorough 8); oracle = verdict on arg, text \
+base[/]arg, re-parse equal with same accessors, same authority (and module), base parent-of result, parent() of result; \
+non-trivial = join accepted. random: structured URIs (1-4 host labels, port, mixed case in scheme/authority/module/path, \
+0-8 segments, trailing slash), optionally damaged (forbidden/control/non-ASCII byte, empty or dot segment, truncation, \
+scheme typo), with two URIs derived by relations (case variants, ancestor, descendant, sibling, other host/module, \
+trailing slash) and a join argument; all of the above oracles on every string, ordered pair and triple; non-trivial = \
+at least two accepted URIs with common authority+module (rsync) / authority (https), or an accepted join.";
+
+//------------ byte strings as JSON ---------------------------------------------
+
+/// Byte string that serialises as a JSON string (byte b <-> char U+00bb).
+#[derive(Clone, PartialEq, Eq, Hash)]
+pub struct Bs(pub Vec<u8>);
+
+impl std::fmt::Debug for Bs {
+    fn fmt(&self, f: &mut std::fmt::Formatter) -> std::fmt::Result {
+        write!(f, "b\"{}\"", self.0.escape_ascii())
+    }
+}
+impl Serialize for Bs {
+    fn serialize<S: serde::Serializer>(&self, s: S) -> Result<S::Ok, S::Error> {
+        s.serialize_str(&self.0.iter().map(|&b| b as char).collect::<String>())
+    }
+}
+impl<'de> Deserialize<'de> for Bs {
+    fn deserialize<D: serde::Deserializer<'de>>(d: D) -> Result<Self, D::Error> {
+        let s = String::deserialize(d)?;
+        s.chars()
+            .map(|c| u8::try_from(c as u32).map_err(|_| serde::de::Error::custom("char above U+00FF")))
+            .collect::<Result<Vec<u8>, _>>()
+            .map(Bs)
+    }
+}
+
+fn show(s: &[u8]) -> String {
+    format!("\"{}\"", s.escape_ascii())
+}
+
+//------------ reference model --------------------------------------------------
+
+#[derive(Clone, Copy, PartialEq, Eq, Debug)]
+enum Verdict {
+    Accept,
+    Reject,
+    Free,
+}
+
+/// SPACE CONTROL " # < > ? [ \ ] ^ ` { | } and everything outside ASCII.
+fn forbidden(b: u8) -> bool {
+    b <= 0x20 || b >= 0x7f || matches!(b, b'"' | b'#' | b'<' | b'>' | b'?' | b'[' | b'\\' | b']' | b'^' | b'`' | b'{' | b'|' | b'}')
+}
+
+/// Characters the crate documents (unit test `rsync_uri_characters`) as fine.
+fn documented_ok(b: u8) -> bool {
+    b.is_ascii_alphanumeric() || b"$%&'()*+,-./:;=_~".contains(&b)
+}
+
+fn is_dot(seg: &[u8]) -> bool {
+    seg == b"." || seg == b".."
+}
+
+/// host = dot-separated non-empty alnum/hyphen labels, optional :port.
+fn conventional_authority(a: &[u8]) -> bool {
+    let (host, port) = match a.iter().position(|&c| c == b':') {
+        Some(i) => (&a[..i], Some(&a[i + 1..])),
+        None => (a, None),
+    };
+    if let Some(p) = port {
+        if p.is_empty() || p.len() > 5 || !p.iter().all(u8::is_ascii_digit) {
+            return false;
+        }
+    }
+    !host.is_empty()
+        && host.split(|&c| c == b'.').all(|l| !l.is_empty() && l.iter().all(|&c| c.is_ascii_alphanumeric() || c == b'-'))
+}
+
+/// No empty segment except the last, no dot segment.
+fn path_ok(path: &[u8]) -> bool {
+    if path.is_empty() {
+        return true;
+    }
+    let segs: Vec<&[u8]> = path.split(|&c| c == b'/').collect();
+    let last = segs.len() - 1;
+    segs.iter().enumerate().all(|(i, s)| !(s.is_empty() && i != last) && !is_dot(s))
+}
+
+/// (authority end, module end) as offsets into `s`; None if the structure
+/// `rsync://authority/module/` is not there.
+fn split_rsync(s: &[u8]) -> Option<(usize, usize)> {
+    if s.len() < 8 || !s[..5].eq_ignore_ascii_case(b"rsync") || &s[5..8] != b"://" {
+        return None;
+    }
+    let ae = 8 + s[8..].iter().position(|&c| c == b'/')?;
+    let me = ae + 1 + s[ae + 1..].iter().position(|&c| c == b'/')?;
+    if ae == 8 || me == ae + 1 {
+        return None;
+    }
+    Some((ae, me))
+}
+
+fn split_https(s: &[u8]) -> Option<usize> {
+    if s.len() < 8 || !s[..5].eq_ignore_ascii_case(b"https") || &s[5..8] != b"://" {
+        return None;
+    }
+    Some(8 + s[8..].iter().position(|&c| c == b'/').unwrap_or(s.len() - 8))
+}
+
+fn model_rsync(s: &[u8]) -> Verdict {
+    if s.iter().any(|&b| forbidden(b)) {
+        return Verdict::Reject;
+    }
+    let Some((ae, me)) = split_rsync(s) else { return Verdict::Reject };
+    if is_dot(&s[ae + 1..me]) || !path_ok(&s[me + 1..]) {
+        return Verdict::Reject;
+    }
+    if !s.iter().all(|&b| documented_ok(b)) || !conventional_authority(&s[8..ae]) {
+        return Verdict::Free;
+    }
+    Verdict::Accept
+}
+
+fn model_https(s: &[u8]) -> Verdict {
+    if s.iter().any(|&b| forbidden(b)) {
+        return Verdict::Reject;
+    }
+    let Some(ae) = split_https(s) else { return Verdict::Reject };
+    if !s.iter().all(|&b| documented_ok(b)) || !conventional_authority(&s[8..ae]) {
+        return Verdict::Free;
+    }
+    Verdict::Accept
+}
+
+fn model_rsync_arg(arg: &[u8]) -> Verdict {
+    if arg.is_empty() {
+        return Verdict::Accept;
+    }
+    if arg.iter().any(|&b| forbidden(b)) || !path_ok(arg) {
+        return Verdict::Reject;
+    }
+    if !arg.iter().all(|&b| documented_ok(b)) {
+        return Verdict::Free;
+    }
+    Verdict::Accept
+}
+
+fn model_https_arg(arg: &[u8]) -> Verdict {
+    if arg.iter().any(|&b| forbidden(b)) {
+        return Verdict::Reject;
+    }
+    if !arg.iter().all(|&b| documented_ok(b)) {
+        return Verdict::Free;
+    }
+    Verdict::Accept
+}
+
+fn strip1(p: &[u8]) -> &[u8] {
+    if p.last() == Some(&b'/') { &p[..p.len() - 1] } else { p }
+}
+
+fn hash_of<T: Hash>(t: &T) -> u64 {
+    let mut h = std::collections::hash_map::DefaultHasher::new();
+    t.hash(&mut h);
+    h.finish()
+}
+
+fn toggle_case(s: &[u8], upto: usize) -> Vec<u8> {
+    let mut v = s.to_vec();
+    for b in &mut v[..upto] {
+        if b.is_ascii_lowercase() {
+            b.make_ascii_uppercase()
+        } else if b.is_ascii_uppercase() {
+            b.make_ascii_lowercase()
+        }
+    }
+    v
+}
+
+fn check_verdict(what: &str, s: &[u8], v: Verdict, accepted: bool, err: &str) -> CheckResult {
+    match (v, accepted) {
+        (Verdict::Accept, false) => Err(Fail::new(format!("{} rejected well-formed {} ({})", what, show(s), err))),
+        (Verdict::Reject, true) => Err(Fail::sig(format!("{}-accepts-malformed", what), format!("{} accepted malformed {}", what, show(s)))),
+        _ => Ok(()),
+    }
+}
+
+//------------ rsync entries ----------------------------------------------------
+
+#[derive(Clone)]
+struct REntry {
+    text: String,
+    uri: Rsync,
+    ae: usize,
+    me: usize,
+    variant: Rsync,
+}
+
+impl REntry {
+    fn new(text: &str) -> Result<REntry, Fail> {
+        let uri = Rsync::from_str(text).map_err(|e| Fail::new(format!("domain element {:?} rejected: {}", text, e)))?;
+        Self::with_uri(text, uri)
+    }
+    fn with_uri(text: &str, uri: Rsync) -> Result<REntry, Fail> {
+        let (ae, me) = split_rsync(text.as_bytes())
+            .ok_or_else(|| Fail::new(format!("accepted rsync URI {:?} lacks the rsync://authority/module/ structure", text)))?;
+        let vt = toggle_case(text.as_bytes(), ae);
+        let variant = Rsync::from_slice(&vt).map_err(|e| {
+            Fail::new(format!("{:?} accepted but its scheme/authority case variant {} rejected: {}", text, show(&vt), e))
+        })?;
+        Ok(REntry { text: text.to_string(), uri, ae, me, variant })
+    }
+    fn b(&self) -> &[u8] {
+        self.text.as_bytes()
+    }
+    fn module(&self) -> &[u8] {
+        &self.b()[self.ae + 1..self.me]
+    }
+    fn path(&self) -> &[u8] {
+        &self.b()[self.me + 1..]
+    }
+}
+
+fn ref_eq(a: &[u8], ae: usize, b: &[u8], be: usize) -> bool {
+    a[..ae].eq_ignore_ascii_case(&b[..be]) && a[ae..] == b[be..]
+}
+
+/// Everything the statement says about an accepted rsync URI on its own.
+fn check_rsync_accepted(s: &[u8], u: &Rsync) -> CheckResult {
+    ensure!(u.as_slice() == s && u.as_str().as_bytes() == s, "Rsync text changed: in {} out {:?}", show(s), u.as_str());
+    ensure!(u.to_string().as_bytes() == s && u.to_bytes().as_ref() == s, "Rsync Display/to_bytes differ from input {}", show(s));
+    if let Some(b) = s.iter().find(|&&b| forbidden(b)) {
+        return Err(Fail::sig("Rsync-accepts-malformed", format!("accepted rsync URI {} contains forbidden byte {:#04x}", show(s), b)));
+    }
+    let Some((ae, me)) = split_rsync(s) else {
+        return Err(Fail::sig("Rsync-accepts-malformed", format!("accepted rsync URI {} lacks rsync://authority/module/", show(s))));
+    };
+    ensure!(u.authority().as_bytes() == &s[8..ae], "authority() of {} is {:?}", show(s), u.authority());
+    ensure!(u.module_name().as_bytes() == &s[ae + 1..me], "module_name() of {} is {:?}", show(s), u.module_name());
+    ensure!(u.path().as_bytes() == &s[me + 1..] && u.path_bytes() == &s[me + 1..], "path() of {} is {:?}", show(s), u.path());
+    let re = format!("rsync://{}/{}/{}", u.authority(), u.module_name(), u.path());
+    ensure!(
+        re.as_bytes()[..8].eq_ignore_ascii_case(&s[..8]) && re.as_bytes()[8..] == s[8..],
+        "accessors of {} recompose to {:?}", show(s), re
+    );
+    ensure_sig!(!is_dot(&s[ae + 1..me]) && path_ok(&s[me + 1..]), "Rsync-accepts-malformed",
+        "accepted rsync URI {} has an empty or dot segment", show(s));
+    ensure!(u.module().as_bytes() == &s[..me + 1], "module() of {} is {:?}", show(s), u.module());
+    ensure!(u.canonical_authority().as_bytes() == s[8..ae].to_ascii_lowercase(), "canonical_authority() of {}", show(s));
+    let cm = u.canonical_module();
+    let mut exp = s[..me + 1].to_vec();
+    exp[8..ae].make_ascii_lowercase();
+    ensure!(
+        cm.len() == exp.len() && cm.as_bytes()[..8].eq_ignore_ascii_case(&exp[..8]) && cm.as_bytes()[8..] == exp[8..],
+        "canonical_module() of {} is {:?}", show(s), cm
+    );
+    ensure!(u.path_is_dir() == (me + 1 == s.len() || s.last() == Some(&b'/')), "path_is_dir() of {}", show(s));
+    Ok(())
+}
+
+/// A derived URI (result of join/parent) must be a valid URI whose cached
+/// offsets agree with its bytes.
+fn check_rsync_result(what: &str, r: &Rsync, origin: &Rsync, sig: &str) -> CheckResult {
+    let re = match Rsync::from_slice(r.as_slice()) {
+        Ok(re) => re,
+        Err(e) => return Err(Fail::sig(sig, format!("{}: result {:?} does not re-parse: {}", what, r.as_str(), e))),
+    };
+    ensure_sig!(*r == re && re == *r, sig, "{}: result {:?} differs from itself re-parsed", what, r.as_str());
+    ensure_sig!(hash_of(r) == hash_of(&re), sig, "{}: result {:?} hashes differently from itself re-parsed", what, r.as_str());
+    ensure_sig!(
+        r.authority() == re.authority() && r.module_name() == re.module_name() && r.path() == re.path(),
+        sig,
+        "{}: result {:?} has stale components: authority {:?}/{:?} module {:?}/{:?} path {:?}/{:?}",
+        what, r.as_str(), r.authority(), re.authority(), r.module_name(), re.module_name(), r.path(), re.path()
+    );
+    ensure_sig!(
+        r.authority() == origin.authority() && r.module_name() == origin.module_name(),
+        sig,
+        "{}: result {:?} left authority/module of {:?}", what, r.as_str(), origin.as_str()
+    );
+    check_rsync_accepted(r.as_slice(), r)
+}
+
+fn check_rsync_parent(x: &Rsync) -> CheckResult {
+    let s = x.as_slice();
+    let Some((_, me)) = split_rsync(s) else { return Ok(()) };
+    let stripped = strip1(&s[me + 1..]);
+    match x.parent() {
+        None => {
+            ensure!(stripped.is_empty(), "parent() of {:?} is None although it has a path segment", x.as_str());
+        }
+        Some(p) => {
+            ensure!(!stripped.is_empty(), "parent() of {:?} is {:?} although it has no path segment", x.as_str(), p.as_str());
+            check_rsync_result("Rsync::parent", &p, x, "")?;
+            let cut = match stripped.iter().rposition(|&c| c == b'/') {
+                Some(i) => me + 1 + i + 1,
+                None => me + 1,
+            };
+            ensure!(p.as_slice() == &s[..cut], "parent() of {:?} is {:?}, expected {}", x.as_str(), p.as_str(), show(&s[..cut]));
+            ensure!(p.path_is_dir(), "parent() {:?} is not a directory", p.as_str());
+            ensure!(p.is_parent_of(x), "parent() {:?} is not a parent of its child {:?}", p.as_str(), x.as_str());
+            ensure!(!x.is_parent_of(&p), "child {:?} claims to be parent of its parent {:?}", x.as_str(), p.as_str());
+        }
+    }
+    Ok(())
+}
+
+/// Laws on an ordered pair. Returns whether the pair has a common module.
+fn pair_rsync(ex: &REntry, ey: &REntry) -> Result<bool, Fail> {
+    let (x, y) = (&ex.uri, &ey.uri);
+    let (xb, yb) = (ex.b(), ey.b());
+    let auth_eq = xb[..ex.ae].eq_ignore_ascii_case(&yb[..ey.ae]);
+    let eq = ref_eq(xb, ex.ae, yb, ey.ae);
+    let same_mod = auth_eq && ex.module() == ey.module();
+    let case_only = auth_eq && !same_mod && ex.module().eq_ignore_ascii_case(ey.module());
+    let sig = if case_only { "rsync-module-case" } else { "" };
+    let (xs, ys) = (ex.text.as_str(), ey.text.as_str());
+
+    ensure!((x == y) == eq, "{:?} == {:?} is {}, reference equality says {}", xs, ys, x == y, eq);
+    ensure!((y == x) == eq, "== not symmetric on {:?} / {:?}", xs, ys);
+    ensure!((*x == ys) == eq, "Rsync {:?} == &str {:?} is {}, reference {}", xs, ys, *x == ys, eq);
+    if eq {
+        ensure!(hash_of(x) == hash_of(y), "equal URIs {:?} and {:?} hash differently", xs, ys);
+    }
+    let rel = x.relative_to(y);
+    let upto_slash = same_mod && strip1(ex.path()) == strip1(ey.path());
+    ensure_sig!(
+        (rel == Some("")) == upto_slash, sig,
+        "{:?}.relative_to({:?}) = {:?}, but the URIs are{} equal up to one trailing slash", xs, ys, rel, if upto_slash { "" } else { " not" }
+    );
+    let par = y.is_parent_of(x);
+    ensure_sig!(par == matches!(rel, Some(p) if !p.is_empty()), sig,
+        "{:?}.is_parent_of({:?}) = {} but relative_to = {:?}", ys, xs, par, rel);
+    if let Some(p) = rel {
+        if !p.is_empty() {
+            match y.join(p.as_bytes()) {
+                Ok(j) => ensure_sig!(
+                    j == *x && ref_eq(j.as_slice(), ey.ae, xb, ex.ae), sig,
+                    "{:?}.relative_to({:?}) = Some({:?}) but joining gives {:?}", xs, ys, p, j.as_str()
+                ),
+                Err(e) => return Err(Fail::sig(sig, format!("{:?}.relative_to({:?}) = Some({:?}) which join rejects: {}", xs, ys, p, e))),
+            }
+        }
+    }
+    if eq {
+        ensure!(!par && !x.is_parent_of(y), "equal URIs {:?} / {:?} are parent of each other", xs, ys);
+    }
+    // x lies beneath y (there is a non-empty q with y.join(q) == x) => parent-of
+    let yp = strip1(ey.path());
+    let xp = ex.path();
+    let beneath = same_mod
+        && if yp.is_empty() { !xp.is_empty() } else { xp.len() > yp.len() + 1 && xp.starts_with(yp) && xp[yp.len()] == b'/' };
+    ensure!(!beneath || par, "{:?} lies beneath {:?} but is_parent_of is false", xs, ys);
+    // replacing an argument by an equal URI changes nothing
+    let (xv, yv) = (&ex.variant, &ey.variant);
+    ensure!(*xv == *x && hash_of(xv) == hash_of(x), "case variant {:?} of {:?} is not equal / hashes differently", xv.as_str(), xs);
+    ensure!(xv.relative_to(y) == rel && x.relative_to(yv) == rel,
+        "relative_to changes under an equal URI: {:?} vs {:?}: {:?} / {:?} / {:?}", xs, ys, rel, xv.relative_to(y), x.relative_to(yv));
+    ensure!(yv.is_parent_of(x) == par && y.is_parent_of(xv) == par, "is_parent_of changes under an equal URI: {:?} {:?}", ys, xs);
+    Ok(same_mod)
+}
+
+fn triple_rsync(x: &REntry, y: &REntry, z: &REntry) -> Result<bool, Fail> {
+    let (a, b, c) = (&x.uri, &y.uri, &z.uri);
+    let mut nt = false;
+    if a == b {
+        if b == c {
+            nt = true;
+            ensure!(a == c, "== not transitive: {:?} {:?} {:?}", x.text, y.text, z.text);
+        }
+        ensure!(
+            a.is_parent_of(c) == b.is_parent_of(c) && c.is_parent_of(a) == c.is_parent_of(b),
+            "parent-of disagrees with ==: {:?} == {:?}, third {:?}", x.text, y.text, z.text
+        );
+    }
+    if a.is_parent_of(b) && b.is_parent_of(c) {
+        nt = true;
+        ensure!(a.is_parent_of(c), "parent-of not transitive: {:?} > {:?} > {:?}", x.text, y.text, z.text);
+    }
+    Ok(nt)
+}
+
+fn join_rsync(base: &REntry, arg: &[u8]) -> Result<bool, Fail> {
+    let v = model_rsync_arg(arg);
+    let r = base.uri.join(arg);
+    check_verdict("Rsync::join", arg, v, r.is_ok(), &r.as_ref().err().map(|e| e.to_string()).unwrap_or_default())?;
+    let Ok(j) = r else { return Ok(false) };
+    check_rsync_result("Rsync::join", &j, &base.uri, "")?;
+    if arg.is_empty() {
+        ensure!(j == base.uri && j.as_slice() == base.b(), "join(\"\") of {:?} gives {:?}", base.text, j.as_str());
+        return Ok(true);
+    }
+    let mut exp = base.b().to_vec();
+    if exp.last() != Some(&b'/') {
+        exp.push(b'/');
+    }
+    exp.extend_from_slice(arg);
+    ensure!(j.as_slice() == exp, "{:?}.join({}) = {:?}, expected {}", base.text, show(arg), j.as_str(), show(&exp));
+    ensure!(base.uri.is_parent_of(&j), "{:?} is not parent of its join {:?}", base.text, j.as_str());
+    ensure!(!j.is_parent_of(&base.uri), "join {:?} is parent of its base {:?}", j.as_str(), base.text);
+    let ej = REntry::with_uri(j.as_str(), j.clone())?;
+    pair_rsync(&ej, base)?;
+    pair_rsync(base, &ej)?;
+    check_rsync_parent(&j)?;
+    Ok(true)
+}
+
+//------------ https entries ----------------------------------------------------
+
+#[derive(Clone)]
+struct HEntry {
+    text: String,
+    uri: Https,
+    ae: usize,
+    variant: Https,
+}
+
+impl HEntry {
+    fn new(text: &str) -> Result<HEntry, Fail> {
+        let uri = Https::from_str(text).map_err(|e| Fail::new(format!("domain element {:?} rejected: {}", text, e)))?;
+        Self::with_uri(text, uri)
+    }
+    fn with_uri(text: &str, uri: Https) -> Result<HEntry, Fail> {
+        let ae = split_https(text.as_bytes()).ok_or_else(|| Fail::new(format!("accepted https URI {:?} lacks https://", text)))?;
+        let vt = toggle_case(text.as_bytes(), ae);
+        let variant = Https::from_slice(&vt)
+            .map_err(|e| Fail::new(format!("{:?} accepted but its case variant {} rejected: {}", text, show(&vt), e)))?;
+        Ok(HEntry { text: text.to_string(), uri, ae, variant })
+    }
+    fn b(&self) -> &[u8] {
+        self.text.as_bytes()
+    }
+}
+
+fn check_https_accepted(s: &[u8], u: &Https) -> CheckResult {
+    ensure!(u.as_slice() == s && u.as_str().as_bytes() == s && u.to_string().as_bytes() == s, "Https text changed: in {} out {:?}", show(s), u.as_str());
+    if let Some(b) = s.iter().find(|&&b| forbidden(b)) {
+        return Err(Fail::sig("Https-accepts-malformed", format!("accepted https URI {} contains forbidden byte {:#04x}", show(s), b)));
+    }
+    let Some(ae) = split_https(s) else {
+        return Err(Fail::sig("Https-accepts-malformed", format!("accepted https URI {} lacks the https:// scheme", show(s))));
+    };
+    ensure!(u.scheme() == Scheme::Https && u.scheme().as_str().as_bytes().eq_ignore_ascii_case(&s[..5]), "scheme() of {}", show(s));
+    ensure!(u.authority().as_bytes() == &s[8..ae], "authority() of {} is {:?}, expected {}", show(s), u.authority(), show(&s[8..ae]));
+    ensure!(u.path().as_bytes() == &s[ae..], "path() of {} is {:?}, expected {}", show(s), u.path(), show(&s[ae..]));
+    let re = format!("{}{}{}", u.scheme(), u.authority(), u.path());
+    ensure!(re.as_bytes()[..8].eq_ignore_ascii_case(&s[..8]) && re.as_bytes()[8..] == s[8..], "accessors of {} recompose to {:?}", show(s), re);
+    ensure!(u.canonical_authority().as_bytes() == s[8..ae].to_ascii_lowercase(), "canonical_authority() of {}", show(s));
+    ensure!(u.path_is_dir() == (ae == s.len() || s.last() == Some(&b'/')), "path_is_dir() of {}", show(s));
+    Ok(())
+}
+
+fn check_https_result(what: &str, r: &Https, origin: &Https, sig: &str) -> CheckResult {
+    let re = match Https::from_slice(r.as_slice()) {
+        Ok(re) => re,
+        Err(e) => return Err(Fail::sig(sig, format!("{}: result {:?} does not re-parse: {}", what, r.as_str(), e))),
+    };
+    ensure_sig!(
+        *r == re && re == *r && r.authority() == re.authority() && r.path() == re.path(), sig,
+        "{}: result {:?} differs from itself re-parsed (authority {:?} vs {:?}, path {:?} vs {:?})",
+        what, r.as_str(), r.authority(), re.authority(), r.path(), re.path()
+    );
+    ensure_sig!(hash_of(r) == hash_of(&re), sig, "{}: result {:?} hashes differently from itself re-parsed", what, r.as_str());
+    ensure_sig!(r.authority() == origin.authority() && r.eq_authority(origin), sig,
+        "{}: result {:?} has authority {:?}, origin {:?} has {:?}", what, r.as_str(), r.authority(), origin.as_str(), origin.authority());
+    check_https_accepted(r.as_slice(), r)
+}
+
+fn check_https_parent(x: &Https) -> CheckResult {
+    let s = x.as_slice();
+    let Some(ae) = split_https(s) else { return Ok(()) };
+    let path = &s[ae..];
+    let regular = !path.windows(2).any(|w| w == b"//");
+    let stripped = strip1(path);
+    match x.parent() {
+        None => ensure!(!regular || stripped.is_empty(), "parent() of {:?} is None although it has a path segment", x.as_str()),
+        Some(p) => {
+            check_https_result("Https::parent", &p, x, "")?;
+            ensure!(
+                p.as_slice().len() < s.len() && s.starts_with(p.as_slice()) && p.as_slice().last() == Some(&b'/') && p.as_slice().len() > ae,
+                "parent() of {:?} is {:?}: not a proper directory prefix", x.as_str(), p.as_str()
+            );
+            if regular {
+                ensure!(!stripped.is_empty(), "parent() of {:?} is {:?} although it has no path segment", x.as_str(), p.as_str());
+                let cut = ae + stripped.iter().rposition(|&c| c == b'/').unwrap_or(0) + 1;
+                ensure!(p.as_slice() == &s[..cut], "parent() of {:?} is {:?}, expected {}", x.as_str(), p.as_str(), show(&s[..cut]));
+            }
+        }
+    }
+    Ok(())
+}
+
+fn pair_https(ex: &HEntry, ey: &HEntry) -> Result<bool, Fail> {
+    let (x, y) = (&ex.uri, &ey.uri);
+    let eq = ref_eq(ex.b(), ex.ae, ey.b(), ey.ae);
+    let auth_eq = ex.b()[8..ex.ae].eq_ignore_ascii_case(&ey.b()[8..ey.ae]);
+    ensure!((x == y) == eq && (y == x) == eq, "Https {:?} == {:?} is {}/{}, reference {}", ex.text, ey.text, x == y, y == x, eq);
+    if eq {
+        ensure!(hash_of(x) == hash_of(y), "equal https URIs {:?} and {:?} hash differently", ex.text, ey.text);
+    }
+    ensure!(x.eq_authority(y) == auth_eq, "eq_authority of {:?} / {:?}", ex.text, ey.text);
+    ensure!(ex.variant == *x && hash_of(&ex.variant) == hash_of(x), "case variant {:?} of {:?} not equal / hashes differently", ex.variant.as_str(), ex.text);
+    ensure!((ex.variant == *y) == eq && (*y == ex.variant) == eq, "== changes under an equal URI: {:?} {:?}", ex.text, ey.text);
+    Ok(auth_eq)
+}
+
+fn join_https(base: &HEntry, arg: &[u8]) -> Result<bool, Fail> {
+    let v = model_https_arg(arg);
+    let r = base.uri.join(arg);
+    check_verdict("Https::join", arg, v, r.is_ok(), &r.as_ref().err().map(|e| e.to_string()).unwrap_or_default())?;
+    let Ok(j) = r else { return Ok(false) };
+    let pathless = base.ae == base.b().len();
+    let sig = if pathless { "https-join-pathless" } else { "" };
+    check_https_result("Https::join", &j, &base.uri, sig)?;
+    if !arg.is_empty() && base.ae > 8 {
+        let mut exp = base.b().to_vec();
+        if exp.last() != Some(&b'/') {
+            exp.push(b'/');
+        }
+        exp.extend_from_slice(arg);
+        ensure_sig!(j.as_slice() == exp, sig, "{:?}.join({}) = {:?}, expected {}", base.text, show(arg), j.as_str(), show(&exp));
+    }
+    check_https_parent(&j)?;
+    Ok(true)
+}
+
+//------------ all constructors on one string -----------------------------------
+
+/// Returns the number of parsers that accepted.
+fn check_string(s: &[u8]) -> Result<(Option<Rsync>, Option<Https>), Fail> {
+    let vr = model_rsync(s);
+    let r = Rsync::from_slice(s);
+    check_verdict("Rsync", s, vr, r.is_ok(), &r.as_ref().err().map(|e| e.to_string()).unwrap_or_default())?;
+    let vh = model_https(s);
+    let h = Https::from_slice(s);
+    check_verdict("Https", s, vh, h.is_ok(), &h.as_ref().err().map(|e| e.to_string()).unwrap_or_default())?;
+    let rb = Rsync::from_bytes(Bytes::copy_from_slice(s));
+    let hb = Https::from_bytes(Bytes::copy_from_slice(s));
+    ensure!(rb.is_ok() == r.is_ok() && hb.is_ok() == h.is_ok(), "from_bytes and from_slice disagree on {}", show(s));
+    if let Ok(text) = std::str::from_utf8(s) {
+        let (r2, r3, r4) = (Rsync::from_str(text), Rsync::from_string(text.to_string()), Rsync::try_from(text.to_string()));
+        ensure!(r2.is_ok() == r.is_ok() && r3.is_ok() == r.is_ok() && r4.is_ok() == r.is_ok(), "Rsync constructors disagree on {:?}", text);
+        let (h2, h3, h4) = (Https::from_str(text), Https::from_string(text.to_string()), Https::try_from(text.to_string()));
+        ensure!(h2.is_ok() == h.is_ok() && h3.is_ok() == h.is_ok() && h4.is_ok() == h.is_ok(), "Https constructors disagree on {:?}", text);
+        if let (Ok(a), Ok(b)) = (&r, &r2) {
+            ensure!(a == b && a.as_str() == b.as_str(), "from_str and from_slice give different values for {:?}", text);
+        }
+        if let (Ok(a), Ok(b)) = (&h, &h2) {
+            ensure!(a == b && a.as_str() == b.as_str(), "from_str and from_slice give different values for {:?}", text);
+        }
+    }
+    if let Ok(u) = &r {
+        check_rsync_accepted(s, u)?;
+        check_rsync_parent(u)?;
+    }
+    if let Ok(u) = &h {
+        check_https_accepted(s, u)?;
+        check_https_parent(u)?;
+    }
+    Ok((r.ok(), h.ok()))
+}
+
+//------------ word enumeration -------------------------------------------------
+
+const ALPHA: &[u8] = b"aB/.:~ ";
+const PREFIXES: &[&str] = &["rsync://", "RSYNC://", "https://", "hTTps://", "rsync:/", ""];
+const CHUNK: u64 = 4096;
+
+/// Number of words over ALPHA of length <= maxlen.
+fn words_upto(maxlen: u32) -> u64 {
+    (7u64.pow(maxlen + 1) - 1) / 6
+}
+
+/// idx-th word in length-lexicographic order.
+fn word(mut idx: u64, out: &mut Vec<u8>) {
+    let mut len = 0usize;
+    let mut block = 1u64;
+    while idx >= block {
+        idx -= block;
+        block *= 7;
+        len += 1;
+    }
+    out.clear();
+    out.resize(len, 0);
+    for p in (0..len).rev() {
+        out[p] = ALPHA[(idx % 7) as usize];
+        idx /= 7;
+    }
+}
+
+#[derive(Clone, Debug, Serialize, Deserialize)]
+pub struct ParseChunk {
+    pub prefix: String,
+    pub start: u64,
+    pub len: u64,
+}
+
+fn parse_maxlen(tier: Tier) -> u32 {
+    tier.pick(7, 9)
+}
+fn count_parse(tier: Tier, _: u64) -> u64 {
+    PREFIXES.len() as u64 * words_upto(parse_maxlen(tier)).div_ceil(CHUNK)
+}
+fn make_parse(tier: Tier, _: u64, idx: u64) -> ParseChunk {
+    let n = words_upto(parse_maxlen(tier));
+    let per = n.div_ceil(CHUNK);
+    let start = (idx % per) * CHUNK;
+    ParseChunk { prefix: PREFIXES[(idx / per) as usize].to_string(), start, len: CHUNK.min(n - start) }
+}
+
+fn run_parse(c: &ParseChunk, obs: &mut Obs) -> CheckResult {
+    let mut w = Vec::new();
+    let mut s = Vec::new();
+    let mut nt = 0u64;
+    for i in c.start..c.start + c.len {
+        word(i, &mut w);
+        s.clear();
+        s.extend_from_slice(c.prefix.as_bytes());
+        s.extend_from_slice(&w);
+        match check_string(&s) {
+            Ok((r, h)) => {
+                if r.is_some() || h.is_some() {
+                    nt += 1;
+                }
+            }
+            Err(f) => {
+                return Err(Fail::sig(f.sig, f.msg).with_case(json!({"prefix": c.prefix, "start": i, "len": 1})));
+            }
+        }
+    }
+    obs.evals(c.len.saturating_sub(1));
+    obs.bulk_nontrivial = nt;
+    obs.label_if(nt > 0, "chunk-with-accepted");
+    Ok(())
+}
+
+//------------ pairs ------------------------------------------------------------
+
+fn valid_paths(alpha: &[u8], maxlen: usize) -> Vec<Vec<u8>> {
+    let mut out = vec![Vec::new()];
+    let mut level = vec![Vec::new()];
+    for _ in 0..maxlen {
+        let mut next = Vec::new();
+        for p in &level {
+            for &c in alpha {
+                let mut q: Vec<u8> = p.clone();
+                q.push(c);
+                // prefixes of valid paths: no leading slash, no double slash
+                if q[0] == b'/' || q.ends_with(b"//") {
+                    continue;
+                }
+                next.push(q);
+            }
+        }
+        out.extend(next.iter().filter(|q| path_ok(q)).cloned());
+        level = next;
+    }
+    out
+}
+
+/// A domain: every text gets a row (so that an element that cannot be built is
+/// reported by its row); `entries` are the elements that could be built.
+struct Dom<E> {
+    texts: Vec<String>,
+    entries: Vec<E>,
+}
+
+fn pair_domain(thorough: bool) -> &'static Dom<REntry> {
+    static Q: OnceLock<Dom<REntry>> = OnceLock::new();
+    static T: OnceLock<Dom<REntry>> = OnceLock::new();
+    (if thorough { &T } else { &Q }).get_or_init(|| {
+        let mut set = BTreeSet::new();
+        let mut w = Vec::new();
+        for prefix in ["rsync://", "RSYNC://"] {
+            for i in 0..words_upto(5) {
+                word(i, &mut w);
+                let mut s = prefix.as_bytes().to_vec();
+                s.extend_from_slice(&w);
+                if Rsync::from_slice(&s).is_ok() {
+                    if let Ok(t) = String::from_utf8(s) {
+                        set.insert(t);
+                    }
+                }
+            }
+            for auth in ["a", "A", "b"] {
+                for module in ["a", "A", "b"] {
+                    for p in valid_paths(b"aA/", if thorough { 6 } else { 5 }) {
+                        set.insert(format!("{}{}/{}/{}", prefix, auth, module, String::from_utf8(p).unwrap()));
+                    }
+                }
+            }
+        }
+        Dom { entries: set.iter().filter_map(|t| REntry::new(t).ok()).collect(), texts: set.into_iter().collect() }
+    })
+}
+
+#[derive(Clone, Debug, Serialize, Deserialize)]
+pub struct PairRow {
+    pub thorough: bool,
+    pub a: String,
+    pub b: Option<String>,
+}
+
+fn count_pairs(tier: Tier, _: u64) -> u64 {
+    pair_domain(tier == Tier::Thorough).texts.len() as u64
+}
+fn make_pairs(tier: Tier, _: u64, idx: u64) -> PairRow {
+    let th = tier == Tier::Thorough;
+    PairRow { thorough: th, a: pair_domain(th).texts[idx as usize].clone(), b: None }
+}
+
+fn run_pairs(r: &PairRow, obs: &mut Obs) -> CheckResult {
+    let ea = REntry::new(&r.a)?;
+    let single;
+    let bs: &[REntry] = match &r.b {
+        Some(b) => {
+            single = vec![REntry::new(b)?];
+            &single
+        }
+        None => &pair_domain(r.thorough).entries,
+    };
+    let mut nt = 0u64;
+    for eb in bs {
+        match pair_rsync(&ea, eb) {
+            Ok(true) => nt += 1,
+            Ok(false) => {}
+            Err(f) => {
+                return Err(Fail::sig(f.sig, f.msg).with_case(json!({"thorough": r.thorough, "a": r.a, "b": eb.text})));
+            }
+        }
+    }
+    obs.evals((bs.len() as u64).saturating_sub(1));
+    obs.bulk_nontrivial = nt;
+    Ok(())
+}
+
+//------------ triples ----------------------------------------------------------
+
+fn triple_paths() -> Vec<Vec<u8>> {
+    let mut set: BTreeSet<Vec<u8>> = valid_paths(b"aA/", 3).into_iter().collect();
+    set.extend(valid_paths(b"a/", 5));
+    set.into_iter().collect()
+}
+
+fn triple_domain_rsync() -> &'static Dom<REntry> {
+    static D: OnceLock<Dom<REntry>> = OnceLock::new();
+    D.get_or_init(|| {
+        let mut v = Vec::new();
+        let mut texts = Vec::new();
+        for prefix in ["rsync://", "RSYNC://"] {
+            for auth in ["a", "A"] {
+                for module in ["a", "A"] {
+                    for p in triple_paths() {
+                        let t = format!("{}{}/{}/{}", prefix, auth, module, String::from_utf8(p).unwrap());
+                        if let Ok(e) = REntry::new(&t) {
+                            v.push(e);
+                        }
+                        texts.push(t);
+                    }
+                }
+            }
+        }
+        Dom { texts, entries: v }
+    })
+}
+
+fn triple_domain_https() -> &'static Dom<HEntry> {
+    static D: OnceLock<Dom<HEntry>> = OnceLock::new();
+    D.get_or_init(|| {
+        let mut v = Vec::new();
+        let mut texts = Vec::new();
+        for prefix in ["https://", "HTTPS://"] {
+            for auth in ["a", "A", "a:1", "b"] {
+                for path in ["", "/", "/a", "/A", "/a/", "/A/", "/a/a", "/a/A", "/a/a/", "//", "/a//", "/."] {
+                    let t = format!("{}{}{}", prefix, auth, path);
+                    if let Ok(e) = HEntry::new(&t) {
+                        v.push(e);
+                    }
+                    texts.push(t);
+                }
+            }
+        }
+        Dom { texts, entries: v }
+    })
+}
+
+#[derive(Clone, Debug, Serialize, Deserialize)]
+pub struct TripleRow {
+    pub https: bool,
+    pub a: String,
+    pub b: Option<String>,
+    pub c: Option<String>,
+}
+
+fn count_triples(_: Tier, _: u64) -> u64 {
+    (triple_domain_rsync().texts.len() + triple_domain_https().texts.len()) as u64
+}
+fn make_triples(_: Tier, _: u64, idx: u64) -> TripleRow {
+    let n = triple_domain_rsync().texts.len() as u64;
+    if idx < n {
+        TripleRow { https: false, a: triple_domain_rsync().texts[idx as usize].clone(), b: None, c: None }
+    } else {
+        TripleRow { https: true, a: triple_domain_https().texts[(idx - n) as usize].clone(), b: None, c: None }
+    }
+}
+
+fn run_triples(r: &TripleRow, obs: &mut Obs) -> CheckResult {
+    let mut nt = 0u64;
+    let mut evals = 0u64;
+    let case = |b: &str, c: &str| json!({"https": r.https, "a": r.a, "b": b, "c": c});
+    if r.https {
+        let ea = HEntry::new(&r.a)?;
+        let (sb, sc);
+        let bs: &[HEntry] = match &r.b { Some(b) => { sb = vec![HEntry::new(b)?]; &sb } None => &triple_domain_https().entries };
+        let cs: &[HEntry] = match &r.c { Some(c) => { sc = vec![HEntry::new(c)?]; &sc } None => &triple_domain_https().entries };
+        for eb in bs {
+            evals += cs.len() as u64;
+            pair_https(&ea, eb).map_err(|f| f.with_case(case(&eb.text, &eb.text)))?;
+            if ea.uri != eb.uri {
+                continue;
+            }
+            for ec in cs {
+                if eb.uri == ec.uri {
+                    nt += 1;
+                    if ea.uri != ec.uri || hash_of(&ea.uri) != hash_of(&ec.uri) {
+                        return Err(Fail::new(format!("Https == not transitive: {:?} {:?} {:?}", ea.text, eb.text, ec.text))
+                            .with_case(case(&eb.text, &ec.text)));
+                    }
+                }
+            }
+        }
+    } else {
+        let ea = REntry::new(&r.a)?;
+        let (sb, sc);
+        let bs: &[REntry] = match &r.b { Some(b) => { sb = vec![REntry::new(b)?]; &sb } None => &triple_domain_rsync().entries };
+        let cs: &[REntry] = match &r.c { Some(c) => { sc = vec![REntry::new(c)?]; &sc } None => &triple_domain_rsync().entries };
+        for eb in bs {
+            evals += cs.len() as u64;
+            if ea.uri != eb.uri && !ea.uri.is_parent_of(&eb.uri) {
+                continue;
+            }
+            for ec in cs {
+                match triple_rsync(&ea, eb, ec) {
+                    Ok(true) => nt += 1,
+                    Ok(false) => {}
+                    Err(f) => return Err(f.with_case(case(&eb.text, &ec.text))),
+                }
+            }
+        }
+    }
+    obs.evals(evals.saturating_sub(1));
+    obs.bulk_nontrivial = nt;
+    obs.label(if r.https { "https" } else { "rsync" });
+    Ok(())
+}
+
+//------------ join enumeration -------------------------------------------------
+
+const RSYNC_BASES: &[&str] = &[
+    "rsync://a/a/", "rsync://a/a/a", "rsync://a/a/a/", "rsync://a/a/a/B", "rsync://a/a/a/B/", "rsync://A/B/a.a",
+    "rsync://a:1/B/~", "rsync://a.B/a~/.a/", "RSYNC://a/a/", "RSYNC://A/a/B", "RSYNC://a/B/a/", "rsync://aB/aB/aB/aB/aB",
+    "rsync://a/:/", "rsync://a/a/:", "rsync://a/.a/a./", "RSYNC://B:1/~/~/",
+];
+const HTTPS_BASES: &[&str] = &[
+    "https://a", "https://a/", "https://a/a", "https://a/a/", "https://A/a/B", "https://a:1", "https://a.B/~/",
+    "hTTps://a", "hTTps://A/", "hTTps://a/a", "https://aB.aB", "https://a/a/B/", "https://a//", "https://a/.",
+];
+
+#[derive(Clone, Debug, Serialize, Deserialize)]
+pub struct JoinChunk {
+    pub base: String,
+    pub start: u64,
+    pub len: u64,
+}
+
+fn join_maxlen(tier: Tier) -> u32 {
+    tier.pick(6, 8)
+}
+fn count_join(tier: Tier, _: u64) -> u64 {
+    (RSYNC_BASES.len() + HTTPS_BASES.len()) as u64 * words_upto(join_maxlen(tier)).div_ceil(CHUNK)
+}
+fn make_join(tier: Tier, _: u64, idx: u64) -> JoinChunk {
+    let n = words_upto(join_maxlen(tier));
+    let per = n.div_ceil(CHUNK);
+    let bi = (idx / per) as usize;
+    let base = if bi < RSYNC_BASES.len() { RSYNC_BASES[bi] } else { HTTPS_BASES[bi - RSYNC_BASES.len()] };
+    let start = (idx % per) * CHUNK;
+    JoinChunk { base: base.to_string(), start, len: CHUNK.min(n - start) }
+}
+
+fn run_join(c: &JoinChunk, obs: &mut Obs) -> CheckResult {
+    let https = split_https(c.base.as_bytes()).is_some();
+    let (re, he) = if https { (None, Some(HEntry::new(&c.base)?)) } else { (Some(REntry::new(&c.base)?), None) };
+    let mut w = Vec::new();
+    let mut nt = 0u64;
+    for i in c.start..c.start + c.len {
+        word(i, &mut w);
+        let r = match (&re, &he) {
+            (Some(e), _) => join_rsync(e, &w),
+            (_, Some(e)) => join_https(e, &w),
+            _ => unreachable!(),
+        };
+        match r {
+            Ok(true) => nt += 1,
+            Ok(false) => {}
+            Err(f) => return Err(Fail::sig(f.sig, f.msg).with_case(json!({"base": c.base, "start": i, "len": 1}))),
+        }
+    }
+    obs.evals(c.len.saturating_sub(1));
+    obs.bulk_nontrivial = nt;
+    obs.label(if https { "https" } else { "rsync" });
+    Ok(())
+}
+
+//------------ random -----------------------------------------------------------
+
+#[derive(Clone, Debug, Serialize, Deserialize)]
+pub struct Rand {
+    pub a: Bs,
+    pub b: Bs,
+    pub c: Bs,
+    pub arg: Bs,
+}
+
+#[derive(Clone, Debug)]
+struct Spec {
+    https: bool,
+    scheme_mask: u8,
+    host: Vec<String>,
+    port: Option<u16>,
+    module: String,
+    segs: Vec<String>,
+    trailing: bool,
+}
+
+impl Spec {
+    fn render(&self) -> Vec<u8> {
+        let mut out: Vec<u8> = (if self.https { "https" } else { "rsync" })
+            .bytes()
+            .enumerate()
+            .map(|(i, b)| if self.scheme_mask >> i & 1 == 1 { b.to_ascii_uppercase() } else { b })
+            .collect();
+        out.extend_from_slice(b"://");
+        out.extend_from_slice(self.host.join(".").as_bytes());
+        if let Some(p) = self.port {
+            out.extend_from_slice(format!(":{}", p).as_bytes());
+        }
+        if !self.https {
+            out.push(b'/');
+            out.extend_from_slice(self.module.as_bytes());
+            out.push(b'/');
+            out.extend_from_slice(self.segs.join("/").as_bytes());
+            if self.trailing && !self.segs.is_empty() {
+                out.push(b'/');
+            }
+        } else if self.segs.is_empty() {
+            if self.trailing {
+                out.push(b'/');
+            }
+        } else {
+            out.push(b'/');
+            out.extend_from_slice(self.segs.join("/").as_bytes());
+            if self.trailing {
+                out.push(b'/');
+            }
+        }
+        out
+    }
+}
+
+fn flip(s: &str, mask: u16) -> String {
+    let mut k = 0;
+    s.chars()
+        .map(|c| {
+            if c.is_ascii_alphabetic() {
+                let f = mask >> (k % 16) & 1 == 1;
+                k += 1;
+                if f { if c.is_ascii_lowercase() { c.to_ascii_uppercase() } else { c.to_ascii_lowercase() } } else { c }
+            } else {
+                c
+            }
+        })
+        .collect()
+}
+
+/// Relation ops deriving a related URI.
+fn derive(base: &Spec, op: u8, mask: u16, extra: &[String], k: u8) -> Spec {
+    let mut s = base.clone();
+    let mask = if mask == 0 { 1 } else { mask };
+    match op {
+        0 => {}
+        1 => s.host = s.host.iter().map(|l| flip(l, mask)).collect(),
+        2 => s.module = flip(&s.module, mask),
+        3 => {
+            let keep = s.segs.len().saturating_sub(1 + k as usize % 3);
+            s.segs.truncate(keep);
+            s.trailing = mask & 1 == 1;
+        }
+        4 => {
+            s.segs.extend(extra.iter().cloned());
+            s.trailing = mask & 1 == 1;
+        }
+        5 => {
+            s.segs.pop();
+            s.segs.extend(extra.iter().take(1).cloned());
+        }
+        6 => s.trailing = !s.trailing,
+        7 => s.host.push("x".into()),
+        8 => s.scheme_mask ^= (mask as u8) | 1,
+        9 => {
+            if let Some(l) = s.segs.last_mut() {
+                *l = flip(l, mask);
+            }
+        }
+        _ => s.module.push('x'),
+    }
+    s
+}
+
+const BAD_BYTES: &[u8] = b" \t\n\0\x7f\"#<>?[\\]^`{|}\x80\xc3\xa9\xff@!";
+
+fn damage(mut s: Vec<u8>, kind: u8, pos: u16, which: u16) -> Vec<u8> {
+    let at = crate::gen::pick_idx(pos, s.len() + 1);
+    match kind {
+        0 => {}
+        1 => s.insert(at, BAD_BYTES[crate::gen::pick_idx(which, BAD_BYTES.len())]),
+        2 => s.insert(at, b'/'),
+        3 => {
+            let ins: &[u8] = [&b"/./"[..], b"/../", b"/..", b"/.", b"./", b"../"][crate::gen::pick_idx(which, 6)];
+            let tail = s.split_off(at);
+            s.extend_from_slice(ins);
+            s.extend_from_slice(&tail);
+        }
+        4 => s.truncate(at),
+        _ => {
+            if !s.is_empty() {
+                let i = crate::gen::pick_idx(which, 8.min(s.len()));
+                s[i] = if s[i] == b'x' { b'y' } else { b'x' };
+            }
+        }
+    }
+    s
+}
+
+fn seg_strategy() -> BoxedStrategy<String> {
+    prop_oneof![
+        5 => "[a-zA-Z0-9]{1,8}",
+        2 => "[a-zA-Z]{1,3}\\.[a-z]{3}",
+        2 => "[a-zA-Z0-9._~%$&'()*+,;=:-]{1,8}",
+        1 => "[.]{1,3}[a-z]{0,2}",
+    ]
+    .boxed()
+}
+
+fn spec_strategy() -> BoxedStrategy<Spec> {
+    (
+        any::<bool>(),
+        prop_oneof![3 => Just(0u8), 1 => Just(0x1fu8), 1 => 0u8..32],
+        prop::collection::vec("[a-zA-Z0-9]([a-zA-Z0-9-]{0,6}[a-zA-Z0-9])?", 1..5),
+        prop::option::weighted(0.3, any::<u16>()),
+        prop_oneof![4 => "[a-zA-Z]{1,6}", 1 => "[a-zA-Z0-9._~%-]{1,8}"],
+        prop::collection::vec(seg_strategy(), 0..9),
+        any::<bool>(),
+    )
+        .prop_map(|(https, scheme_mask, host, port, module, segs, trailing)| Spec { https, scheme_mask, host, port, module, segs, trailing })
+        .boxed()
+}
+
+fn rand_strategy(_: Tier) -> BoxedStrategy<Rand> {
+    let op = || prop_oneof![2 => Just(0u8), 3 => Just(1u8), 3 => Just(2u8), 4 => Just(3u8), 4 => Just(4u8), 1 => Just(5u8), 2 => Just(6u8), 1 => Just(7u8), 2 => Just(8u8), 1 => Just(9u8), 1 => Just(10u8)];
+    let rel = move || (op(), op(), any::<u16>(), prop::collection::vec(seg_strategy(), 1..4), any::<u8>());
+    let dmg = || (prop_oneof![8 => Just(0u8), 2 => Just(1u8), 1 => Just(2u8), 1 => Just(3u8), 1 => Just(4u8), 1 => Just(5u8)], any::<u16>(), any::<u16>());
+    (spec_strategy(), rel(), rel(), dmg(), prop::collection::vec(seg_strategy(), 0..4), any::<bool>(), dmg())
+        .prop_map(|(spec, r1, r2, d, argsegs, argtrail, da)| {
+            let apply = |base: &Spec, r: &(u8, u8, u16, Vec<String>, u8)| {
+                let s = derive(base, r.0, r.2, &r.3, r.4);
+                derive(&s, if r.4 & 1 == 0 { 0 } else { r.1 }, r.2.rotate_left(3), &r.3, r.4 >> 1)
+            };
+            let sb = apply(&spec, &r1);
+            let sc = apply(&sb, &r2);
+            let mut arg = argsegs.join("/").into_bytes();
+            if argtrail && !arg.is_empty() {
+                arg.push(b'/');
+            }
+            Rand {
+                a: Bs(damage(spec.render(), d.0, d.1, d.2)),
+                b: Bs(sb.render()),
+                c: Bs(sc.render()),
+                arg: Bs(damage(arg, da.0, da.1, da.2)),
+            }
+        })
+        .boxed()
+}
+
+fn run_random(c: &Rand, obs: &mut Obs) -> CheckResult {
+    let mut rs: Vec<REntry> = Vec::new();
+    let mut hs: Vec<HEntry> = Vec::new();
+    for s in [&c.a.0, &c.b.0, &c.c.0] {
+        let (r, h) = check_string(s)?;
+        if let Some(u) = r {
+            // serde form is the text
+            let js = serde_json::to_string(&u).map_err(|e| Fail::new(e.to_string()))?;
+            let back: Rsync = serde_json::from_str(&js).map_err(|e| Fail::new(format!("serde form {} of an accepted URI rejected: {}", js, e)))?;
+            ensure!(back == u && back.as_str() == u.as_str(), "serde round trip of {:?}", u.as_str());
+            rs.push(REntry::with_uri(&u.as_str().to_string(), u)?);
+        }
+        if let Some(u) = h {
+            let js = serde_json::to_string(&u).map_err(|e| Fail::new(e.to_string()))?;
+            let back: Https = serde_json::from_str(&js).map_err(|e| Fail::new(format!("serde form {} of an accepted URI rejected: {}", js, e)))?;
+            ensure!(back == u && back.as_str() == u.as_str(), "serde round trip of {:?}", u.as_str());
+            hs.push(HEntry::with_uri(&u.as_str().to_string(), u)?);
+        }
+    }
+    obs.label(if rs.len() + hs.len() == 3 { "all-accepted" } else { "some-rejected" });
+    obs.label_if(!rs.is_empty(), "rsync");
+    obs.label_if(!hs.is_empty(), "https");
+    let mut common = false;
+    let mut parent_pair = false;
+    let mut eq_variant = false;
+    let mut mod_case = false;
+    for x in &rs {
+        for y in &rs {
+            let same = pair_rsync(x, y)?;
+            if !std::ptr::eq(x, y) {
+                common |= same;
+                parent_pair |= y.uri.is_parent_of(&x.uri);
+                eq_variant |= x.uri == y.uri && x.text != y.text;
+                mod_case |= x.module() != y.module() && x.module().eq_ignore_ascii_case(y.module())
+                    && x.b()[..x.ae].eq_ignore_ascii_case(&y.b()[..y.ae]);
+            }
+            for z in &rs {
+                triple_rsync(x, y, z)?;
+            }
+        }
+    }
+    for x in &hs {
+        for y in &hs {
+            let same = pair_https(x, y)?;
+            if !std::ptr::eq(x, y) {
+                common |= same;
+                eq_variant |= x.uri == y.uri && x.text != y.text;
+            }
+            for z in &hs {
+                if x.uri == y.uri && y.uri == z.uri {
+                    ensure!(x.uri == z.uri, "Https == not transitive: {:?} {:?} {:?}", x.text, y.text, z.text);
+                }
+            }
+        }
+    }
+    let mut joined = false;
+    for x in &rs {
+        joined |= join_rsync(x, &c.arg.0)?;
+    }
+    for x in &hs {
+        if x.ae > 8 {
+            joined |= join_https(x, &c.arg.0)?;
+        }
+    }
+    obs.label_if(common, "common-module");
+    obs.label_if(parent_pair, "parent-pair");
+    obs.label_if(eq_variant, "equal-different-text");
+    obs.label_if(mod_case, "module-case-differs");
+    obs.label_if(joined, "join-ok");
+    obs.label_if(hs.iter().any(|h| h.ae == h.b().len()), "https-pathless");
+    obs.nontrivial_if(common || joined);
+    Ok(())
+}
+
+//------------ property ---------------------------------------------------------
 
 pub fn property() -> Property {
-    Property { id: "C12", rule: "", assumptions: vec![], subs: vec![] }
+    Property {
+        id: "C12",
+        rule: RULE,
+        assumptions: vec![
+            "the forbidden set is the one documented in src/uri.rs (SPACE, controls, \" # < > ? [ \\ ] ^ ` { | }) plus all non-ASCII bytes",
+            "acceptance is demanded only for conventional authorities (host[:port]) and documented characters; '@', '!', odd authorities (empty for https, '.', ':', '~') are don't-care for acceptance but accepted values must obey all laws",
+            "Https::join follows its documentation (a slash is injected unless the URI ends in one); https bases with empty authority are not joined",
+            "Https::parent is compared with the text model only for paths without empty segments",
+            "std DefaultHasher (SipHash) collisions between unequal values are not asserted either way",
+        ],
+        subs: vec![
+            EnumSub { name: "parse", count: count_parse, make: make_parse, run: run_parse, exhaustive: true }.boxed(),
+            EnumSub { name: "pairs", count: count_pairs, make: make_pairs, run: run_pairs, exhaustive: true }.boxed(),
+            EnumSub { name: "triples", count: count_triples, make: make_triples, run: run_triples, exhaustive: true }.boxed(),
+            EnumSub { name: "join", count: count_join, make: make_join, run: run_join, exhaustive: true }.boxed(),
+            PropSub {
+                name: "random",
+                strategy: rand_strategy,
+                cases: |t| t.pick(600_000, 10_000_000),
+                run: run_random,
+                floors: &[
+                    ("all-accepted", 0.3), ("some-rejected", 0.15), ("rsync", 0.2), ("https", 0.2), ("common-module", 0.4),
+                    ("equal-different-text", 0.1), ("parent-pair", 0.1), ("module-case-differs", 0.04), ("join-ok", 0.35),
+                    ("https-pathless", 0.03),
+                ],
+            }
+            .boxed(),
+        ],
+    }
 }
